@@ -284,7 +284,7 @@ def execute(cases_, tier, seed):
     res.samples = [c["history"] for c in cases_[:: max(1, len(cases_) // 5)]][:5]
     res.bound = "tier=%s: all histories over the 18-op alphabet to depth %s" % (tier, "3 (and depth 4 over a 6-op, depth 3 over the 6-op ordering sub-alphabet)" if tier == "quick" else "4 (and depth 5 over an 8-op and the 6-op ordering sub-alphabet)")
     res.assumptions = ["histories are not extended past an op that returns Err (documented: the space is unspecified after an error)"]
-    if len(cases_) > 50 and (len(canon_states) < 30 or n_comm < 10):
+    if not res.violations and (len(cases_) > 50 and (len(canon_states) < 30 or n_comm < 10)):   # a subject that breaks everything is reported through its violations, not as vacuity
         raise MachineryError("vacuity guard: states=%d commutation checks=%d" % (len(canon_states), n_comm))
     return res
 
